@@ -146,13 +146,13 @@ Proof. exact window_update_lost_lemma. Qed.
    than retx_max drops per segment, round trip below the budget) yields such
    an advancing ACK inside every budget window.  The missing cases are exactly:
    (M1) the retransmitted first segment must be accepted (or already covered)
-        by the receiver, i.e. the receiver has room when it arrives; this fails
-        when a reordered, older ACK re-opened the sender's window beyond the
+        by the receiver, i.e. the receiver has room when it arrives; a
+        reordered, older ACK can re-open the sender's window beyond the
         receiver's right edge (tcb_ack takes the window of ANY ack segment, no
-        SND.WL1/WL2 test) while the reader is idle — then every retransmission
-        is re-ACKed without progress and the sender is aborted although nothing
-        was lost; excluding it needs FIFO delivery per direction or a reading
-        application, plus the right-edge invariant over the wire;
+        SND.WL1/WL2 test); the overshoot is then re-ACKed without progress and
+        only that re-ACK (true window) or the reader ends it — the argument
+        needs the right-edge invariant over the wire contents, or FIFO
+        delivery per direction;
    (M2) the ACK must arrive while ackn <= snd_nxt: after a go-back-N rewind
         snd_nxt = snd_una until the next segmentation pass; in the kernel
         check_retx and segment_all are one egress, in the connection-level
